@@ -2,6 +2,7 @@
 import io
 import sys
 
+import math
 import numpy as np
 from hypothesis import strategies as st
 
@@ -75,7 +76,15 @@ def check_point(case):
     sys.stdout = io.StringIO()
     corr = case.get("corr") or {}
     Dtr0 = None
+    um = case.get("user_mob")
+    saved_mob = th.mobCallables.get(ph)
     try:
+        if um and saved_mob is not None:
+            # documented option: mobility of every element given by the user as a function of temperature (setMobility with a dictionary)
+            fns = {els[i]: (lambda T_, a=a, q=q: a * math.exp(-q / (R * T_))) for i, (a, q) in enumerate(um)}
+            th.setMobility({e: fns[e] for e in (els if not case.get("user_mob_reversed") else els[::-1])}, ph)
+            th.clearCache()
+            out.label("user_supplied_mobility")
         if corr and th.mobCallables.get(ph) is not None:
             # documented option: "factor to multiply mobility by for each element" - the uncorrected tracer diffusivities first
             th.setMobilityCorrection("all", 1)
@@ -159,6 +168,16 @@ def check_point(case):
                     fac[int(e)] = f
             if not np.allclose(Dtr, Dtr0 * fac, rtol=1e-5, atol=0):
                 out.fail("mobility_correction_not_applied", "%s x=%r T=%r: tracer diffusivities %r with correction factors %r, %r without" % (name, x.tolist(), T, Dtr.tolist(), fac.tolist(), Dtr0.tolist()))
+        if um and saved_mob is not None:
+            fac_u = np.ones(len(els))
+            for e, f in corr.items():
+                if e == "all":
+                    fac_u[:] = f
+                else:
+                    fac_u[int(e)] = f
+            want = np.array([R * T * a * math.exp(-q / (R * T)) for a, q in um]) * fac_u
+            if not np.allclose(Dtr, want, rtol=1e-9, atol=0):
+                out.fail("tracer_not_RT_mobility", "%s x=%r T=%r: user-supplied mobility functions (one per element): tracer diffusivity %r, R*T*M_e(T) of the supplied functions %r" % (name, x.tolist(), T, Dtr.tolist(), want.tolist()), user_supplied=True)
         if th.mobCallables.get(ph) is not None:
             out.label("mobility_model")
             xfull = np.concatenate([[1 - x.sum()], x])
@@ -177,6 +196,9 @@ def check_point(case):
     finally:
         if corr:
             th.setMobilityCorrection("all", 1)
+            th.clearCache()
+        if um and saved_mob is not None:
+            th.mobCallables[ph] = saved_mob
             th.clearCache()
         sys.stdout = so
     out.nt(bool(np.all(x >= 1e-3)))
@@ -204,6 +226,10 @@ def _pt(draw):
                 corr[str(i)] = 10 ** draw(st.floats(-1, 1))
         if corr:
             case["corr"] = corr
+    if draw(st.integers(0, 5)) == 0:
+        # mobility of every element supplied by the user as an Arrhenius function of temperature
+        case["user_mob"] = [[10 ** draw(st.floats(-12, -8)), draw(st.floats(100e3, 300e3))] for _ in els]
+        case["user_mob_reversed"] = draw(st.booleans())
     return case
 
 
@@ -211,5 +237,5 @@ def clauses():
     return [
         Clause("points", _pt, check_point, quick=320, thorough=15000, shrink=False,
                rule="generator: system in {Ni-Cr-Al fcc, Ni-Cr fcc, Ni-Al fcc, Fe-Cr-Ni fcc, Fe-Cr-Ni bcc, Al-Zr fcc, Al-Mg-Si fcc, Cu-Ti fcc} x composition over the matrix-phase field x temperature; points where the global equilibrium is not the matrix phase alone are counted and skipped; "
-                    "oracle: dMudX = central finite differences of the equilibrium chemical potentials, symmetric, positive definite; interdiffusivity eigenvalues real positive; tracer diffusivities positive and = R*T*mobility (two code paths); Darken relation for binaries; substitutional mobility-matrix rows sum to zero; non-trivial: accepted point with every solute fraction >= 1e-3"),
+                    "oracle: dMudX = central finite differences of the equilibrium chemical potentials, symmetric, positive definite; interdiffusivity eigenvalues real positive; tracer diffusivities positive and = R*T*mobility (two code paths; 1 point in 6 with the mobility of every element supplied by the user as an Arrhenius function through setMobility(dict), judged against those functions); Darken relation for binaries; substitutional mobility-matrix rows sum to zero; non-trivial: accepted point with every solute fraction >= 1e-3"),
     ]
